@@ -121,7 +121,7 @@ func treeMeaning(n *node, row *sqlRow) bool {
 	return false
 }
 
-const rowStrCls = " !#$%&()*+,-./0123456789:;<=>?@ABCXYZ[]^_`abcdefghijklmnopqrstuvwxyz{|}~"
+const rowStrCls = " !#$%&()*+,-./0123456789:;<=>?@ABCXYZ[]^_`abcdefghijklmnopqrstuvwxyz{|}~'\"\\"
 
 // rowFor assigns a fresh symbolic value of the matching type to the field of every leaf.
 func rowFor(t *node) *sqlRow {
@@ -134,10 +134,23 @@ func rowFor(t *node) *sqlRow {
 		} else if leafIsInt(n.lf) {
 			r.vals = append(r.vals, rowVal{isInt: true, i: rtInt("rowint", -3, 103)})
 		} else {
-			ln := rtChoose("rowlen", 4)
-			b := make([]byte, ln)
-			for i := range b {
-				b[i] = holeByte("rowstr", rowStrCls)
+			// a free string of 0-3 bytes, the leaf's own value, or that value with its last byte
+			// replaced (rows next to the constant, whatever its length)
+			ln := rtChoose("rowlen", 6)
+			var b []byte
+			switch {
+			case ln < 4:
+				b = make([]byte, ln)
+				for i := range b {
+					b[i] = holeByte("rowstr", rowStrCls)
+				}
+			case ln == 4:
+				b = []byte(n.lf.s1)
+			default:
+				b = []byte(n.lf.s1)
+				if len(b) > 0 {
+					b[len(b)-1] = holeByte("rowstr", rowStrCls)
+				}
 			}
 			r.vals = append(r.vals, rowVal{s: string(b)})
 		}
